@@ -7,14 +7,16 @@
     shared model's parameters and raw_args are [st]; [canon_tables m r] = for each segment the table
     Model.get_args_time_course computes from that segment's states/times with the model's
     parameters set to THAT segment's parameter dict; [good_state] = any parameter VALUES whatsoever
-    in the shared model, raw_args empty or filled; [spec_op] = state-free description of a read. *)
+    in the shared model, raw_args empty or filled; [spec_op pk] = state-free description of a read,
+    [pk] = which bodies get_producers / get_consumers have ([rf_prod gen_res_facts]: regenerated;
+    expected value = the switch coq/simres/ExpectedFacts.v, see design/C10.md). *)
 From Coq Require Import List NArith ZArith QArith Bool.
 From MxlBase Require Import ListX.
-From SimRes Require Import ResModel ResFn ResSpec GenResFacts ResProofs.
+From SimRes Require Import ResModel ResFn ExpectedFacts ResSpec GenResFacts ResProofs ResNv ResNvProofs.
 Import ListNotations.
 Local Open Scope Z_scope.
 
-Theorem C10_facts_pinned : gen_res_facts = mkResFacts NRFixed true true true true true true true.
+Theorem C10_facts_pinned : gen_res_facts = mkResFacts NRFixed true true true C10_expected_prod true true true.
 Proof. vm_compute. reflexivity. Qed.
 Print Assumptions C10_facts_pinned.
 
@@ -30,13 +32,14 @@ Theorem C10_view_is_model_value :
     | Ok data => VFrames (map qframe data)
     | Err e => VErr e
     end.
-Proof. rewrite C10_facts_pinned. exact args_view_is_tables. Qed.
+Proof. rewrite C10_facts_pinned. exact (args_view_is_tables C10_expected_prod). Qed.
 Print Assumptions C10_view_is_model_value.
 
 (** reported derivatives = the Model's right-hand side (stoichiometry x fluxes, computed coefficients
     evaluated on the row) of each REPORTED row of values and fluxes, under that segment's parameters.
-    (Full N*v statement with the sum written out: see design/C10.md -- the regrouping of the
-    coefficient dictionaries is validated by the oracle, not proved.) *)
+    (The name is kept from the first pass.  What was missing then -- that this right-hand side, computed
+    from the cache's coefficient dictionaries, IS the sum N*v written out -- is now
+    [C10_N_times_v_is_rhs] / [C10_N_times_v_single_read] below.) *)
 Theorem C10_rhs_is_model_rhs_partial :
   forall fsem m r pn tbs st,
     wf_res r pn -> canon_tables fsem m r = Ok tbs -> good_state pn tbs st ->
@@ -45,8 +48,82 @@ Theorem C10_rhs_is_model_rhs_partial :
     | Ok fs => VFrames (map qframe fs)
     | Err e => VErr e
     end.
-Proof. rewrite C10_facts_pinned. exact rhs_view_is_model_rhs. Qed.
+Proof. rewrite C10_facts_pinned. exact (rhs_view_is_model_rhs C10_expected_prod). Qed.
 Print Assumptions C10_rhs_is_model_rhs_partial.
+
+(** "stoichiometry times reported fluxes equals reported derivatives", at full strength.
+    [nv_table m tb] (ResNv.v) is computed from the REPORTED table [tb] of a segment (what
+    get_args(everything included) shows: [C10_view_is_model_value]) and the DECLARED stoichiometries
+    only: cell (row, x) = sum over the reactions r, in declaration order, of N[x,r](row) * v_r(row),
+    v_r(row) the reported flux, N[x,r](row) the declared coefficient -- a number, or its function
+    applied to the values reported in that row (parameters as shown for the segment, states/time of
+    the row).  It does not mention the model cache, the static/dynamic split or the coefficient
+    dictionaries.  For every model with well-formed names ([wf_names]: what Model._insert_id
+    guarantees; evaluated to [true] on every generated model by the correspondence), every result,
+    every segment and row, every parameter state of the shared model and fill state of the lazy table,
+    and every position in every sequence of reads and user edits: *)
+Theorem C10_N_times_v_is_rhs :
+  forall fsem m r pn tbs,
+    wf_names m pn -> wf_res r pn -> evaluable fsem m pn -> canon_tables fsem m r = Ok tbs ->
+    forall os st i fs, good_state pn tbs st -> nth_error os i = Some (ORhs NNone false) ->
+      nth_error (run_ops fsem gen_res_facts m r os st) i = Some (VFrames fs) ->
+      exists zs, map_res (nv_table fsem m) tbs = Ok zs /\ fs = map qframe zs.
+Proof. rewrite C10_facts_pinned. exact (nv_in_sequences C10_expected_prod). Qed.
+Print Assumptions C10_N_times_v_is_rhs.
+
+(** the same for one read from any reachable state, without assuming that the model evaluates under
+    every parameter valuation *)
+Theorem C10_N_times_v_single_read :
+  forall fsem m r pn tbs st fs,
+    wf_names m pn -> wf_res r pn -> canon_tables fsem m r = Ok tbs -> good_state pn tbs st ->
+    fst (run_op fsem gen_res_facts m r (ORhs NNone false) st) = VFrames fs ->
+    exists zs, map_res (nv_table fsem m) tbs = Ok zs /\ fs = map qframe zs.
+Proof. rewrite C10_facts_pinned. exact (nv_single C10_expected_prod). Qed.
+Print Assumptions C10_N_times_v_single_read.
+
+(** segment by segment: whenever Model.get_right_hand_side_time_course answers for the table reported
+    for a segment (under that segment's parameters [p]), the answer is N * v of that table *)
+Theorem C10_segment_rhs_is_N_times_v :
+  forall fsem m pn p s tb f,
+    wf_names m pn -> map fst p = pn ->
+    args_table fsem m p s = Ok tb -> rhs_table fsem m p tb = Ok f -> nv_table fsem m tb = Ok f.
+Proof. exact rhs_table_is_nv. Qed.
+Print Assumptions C10_segment_rhs_is_N_times_v.
+
+(** the boolean name check the correspondence evaluates on every generated model is sound *)
+Theorem C10_wf_names_checked : forall m pn, wf_namesb m pn = true -> wf_names m pn.
+Proof. exact wf_namesb_sound. Qed.
+Print Assumptions C10_wf_names_checked.
+
+(** non-vacuity of the N*v theorems: x1' = p*r70 - r71, x2' = (x1 + x2)*r71 with r70 = x1 (flux), r71 = p + x2,
+    p = 2 then p = -1; coefficient p is parameter-computed (static table, differs between the segments),
+    x1 + x2 (derived 41) is state-computed (dynamic table).  All hypotheses hold, the derivatives view
+    answers, and its cells are the sums written out: e.g. t=1, p=2, x=(3,1): r70=3, r71=3, x1' = 2*3 - 3 = 3,
+    x2' = 4*3 = 12;  t=2, p=-1, x=(1,2): r70=1, r71=1, x1' = -1 - 1 = -2, x2' = 3*1 = 3. *)
+Definition nv_m : model :=
+  mkModel [(1%N, 1); (2%N, 0)]
+          [(41%N, mkCall 2%N [1%N; 2%N])]
+          [(70%N, mkRxn (mkCall 0%N [1%N]) [(1%N, CDyn 0%N [20%N])]);
+           (71%N, mkRxn (mkCall 2%N [20%N; 2%N]) [(1%N, CStat (-1)); (2%N, CDyn 0%N [41%N])])]
+          [(100%N, mkCall 2%N [70%N; 71%N])]
+          [41%N; 70%N; 71%N].
+Definition nv_r : simres := mkRes [[(0, [1; 0]); (1, [3; 1])]; [(2, [1; 2])]] [[(20%N, 2)]; [(20%N, -1)]].
+
+Example C10_N_times_v_nonvacuous :
+  wf_names nv_m [20%N] /\ wf_res nv_r [20%N] /\
+  exists tbs, canon_tables fsemZ nv_m nv_r = Ok tbs /\ good_state [20%N] tbs (mkSt [(20%N, 7)] []) /\
+    fst (run_op fsemZ gen_res_facts nv_m nv_r (ORhs NNone false) (mkSt [(20%N, 7)] []))
+    = VFrames [mkFrame [0; 1] [1%N; 2%N] [[0%Q; 2%Q]; [3%Q; 12%Q]]; mkFrame [2] [1%N; 2%N] [[(-2)%Q; 3%Q]]] /\
+    map_res (nv_table fsemZ nv_m) tbs
+    = Ok [mkFrame [0; 1] [1%N; 2%N] [[0; 2]; [3; 12]]; mkFrame [2] [1%N; 2%N] [[-2; 3]]].
+Proof.
+  rewrite C10_facts_pinned.
+  split; [apply wf_namesb_sound; vm_compute; reflexivity|].
+  split; [split; [repeat constructor; cbn; intuition discriminate|split; [reflexivity|split; [discriminate|repeat constructor]]]|].
+  eexists. split; [vm_compute; reflexivity|]. split; [split; [reflexivity|left; reflexivity]|].
+  split; vm_compute; reflexivity.
+Qed.
+Print Assumptions C10_N_times_v_nonvacuous.
 
 (** concatenated view = per-segment views stacked in order ([concat0]: indexes and rows appended) *)
 Theorem C10_concat_is_stack :
@@ -61,7 +138,7 @@ Theorem C10_concat_is_stack :
                  fst (run_op fsem gen_res_facts m r (OFluxes surr n true) st2) = stacked d)
     /\ (forall n, fst (run_op fsem gen_res_facts m r (ORhs n false) st1) = VFrames d ->
                  fst (run_op fsem gen_res_facts m r (ORhs n true) st2) = stacked d).
-Proof. rewrite C10_facts_pinned. exact concat_is_stack. Qed.
+Proof. rewrite C10_facts_pinned. exact (concat_is_stack C10_expected_prod). Qed.
 Print Assumptions C10_concat_is_stack.
 
 (** reading views repeatedly, in any order, interleaved with parameter edits by the user, from any
@@ -71,8 +148,8 @@ Theorem C10_every_read_is_its_spec :
   forall fsem m r pn tbs,
     wf_res r pn -> evaluable fsem m pn -> canon_tables fsem m r = Ok tbs ->
     forall os st i o, good_state pn tbs st -> nth_error os i = Some o -> is_view o = true ->
-    nth_error (run_ops fsem gen_res_facts m r os st) i = Some (spec_op fsem m r pn o).
-Proof. rewrite C10_facts_pinned. exact run_ops_nth. Qed.
+    nth_error (run_ops fsem gen_res_facts m r os st) i = Some (spec_op (rf_prod gen_res_facts) fsem m r pn o).
+Proof. rewrite C10_facts_pinned. exact (run_ops_nth C10_expected_prod). Qed.
 Print Assumptions C10_every_read_is_its_spec.
 
 (** ... hence the same read gives the same answer at any position of any two read sequences *)
@@ -83,7 +160,7 @@ Theorem C10_read_order_irrelevant :
       good_state pn tbs st1 -> good_state pn tbs st2 ->
       nth_error os1 i = Some o -> nth_error os2 j = Some o -> is_view o = true ->
       nth_error (run_ops fsem gen_res_facts m r os1 st1) i = nth_error (run_ops fsem gen_res_facts m r os2 st2) j.
-Proof. rewrite C10_facts_pinned. exact read_order_irrelevant. Qed.
+Proof. rewrite C10_facts_pinned. exact (read_order_irrelevant C10_expected_prod). Qed.
 Print Assumptions C10_read_order_irrelevant.
 
 (** a freshly returned result is a reachable state whatever values the model's parameters have *)
@@ -95,6 +172,8 @@ Print Assumptions C10_fresh_result_is_good.
 (** a normalised read = [normalise] applied to the frames of the un-normalised read ... *)
 Theorem C10_normalised_view :
   forall fsem m r pn tbs st1 st2 data,
+    let normalised := fun (data : list (frame Q)) (n : norm) =>
+      match normalise gen_res_facts data n with Ok d => VFrames d | Err e => VErr e end in
     wf_res r pn -> evaluable fsem m pn -> canon_tables fsem m r = Ok tbs ->
     good_state pn tbs st1 -> good_state pn tbs st2 ->
     (forall f n, fst (run_op fsem gen_res_facts m r (OArgs f false NNone) st1) = VFrames data ->
@@ -105,21 +184,21 @@ Theorem C10_normalised_view :
                  fst (run_op fsem gen_res_facts m r (OFluxes surr n false) st2) = normalised data n)
     /\ (forall n, fst (run_op fsem gen_res_facts m r (ORhs NNone false) st1) = VFrames data ->
                  fst (run_op fsem gen_res_facts m r (ORhs n false) st2) = normalised data n).
-Proof. rewrite C10_facts_pinned. exact normalised_view. Qed.
+Proof. rewrite C10_facts_pinned. exact (normalised_view C10_expected_prod). Qed.
 Print Assumptions C10_normalised_view.
 
 (** ... and [normalise] divides by the scalar, *)
 Theorem C10_normalise_scalar :
   forall data q, is_zero q = false ->
     normalise gen_res_facts data (NScalar q) = Ok (map (fun f => div_frame f q) data).
-Proof. rewrite C10_facts_pinned. exact normalise_scalar. Qed.
+Proof. rewrite C10_facts_pinned. exact (normalise_scalar C10_expected_prod). Qed.
 Print Assumptions C10_normalise_scalar.
 
 (** by the per-segment factors, *)
 Theorem C10_normalise_per_segment :
   forall data l, existsb is_zero l = false -> length l = length data ->
     normalise gen_res_facts data (NList l) = Ok (map (fun fq => div_frame (fst fq) (snd fq)) (combine data l)).
-Proof. rewrite C10_facts_pinned. exact normalise_per_segment. Qed.
+Proof. rewrite C10_facts_pinned. exact (normalise_per_segment C10_expected_prod). Qed.
 Print Assumptions C10_normalise_per_segment.
 
 (** or by the per-row factors: row k of segment i is divided by factor (rows before segment i) + k
@@ -132,39 +211,67 @@ Theorem C10_normalise_per_row :
     Forall2 (fun f qs => length qs = length (f_rows f)) data qss ->
     normalise gen_res_facts data (NList (concat qss))
     = Ok (map (fun fq => div_rows (fst fq) (snd fq)) (combine data qss)).
-Proof. rewrite C10_facts_pinned. exact normalise_per_row. Qed.
+Proof. rewrite C10_facts_pinned. exact (normalise_per_row C10_expected_prod). Qed.
 Print Assumptions C10_normalise_per_row.
 
 Theorem C10_normalise_per_row_old_code_refuted :
   exists data qss,
     existsb is_zero (concat qss) = false /\ length (concat qss) <> length data /\
     Forall2 (fun f qs => length qs = length (f_rows f)) data qss /\ data <> [] /\
-    normalise (mkResFacts NRRebindEmpty true true true true true true true) data (NList (concat qss)) = Ok [].
+    normalise (mkResFacts NRRebindEmpty true true true PKFirst true true true) data (NList (concat qss)) = Ok [].
 Proof.
   exists [mkFrame [0; 1] [1%N] [[1%Q]; [2%Q]]], [[2%Q; 4%Q]].
   split; [reflexivity|]. split; [cbn; discriminate|]. split; [repeat constructor|]. split; [discriminate|reflexivity].
 Qed.
 Print Assumptions C10_normalise_per_row_old_code_refuted.
 
-(** producers / consumers.  FULL statement (not provable: the code decides differently): "in every
-    segment the producers of v are exactly the fluxes whose coefficient for v is positive under that
-    segment's parameters at that row's state, scaled by that coefficient on request".
-    PROVED ([_partial]): the view is [spec_prodcons] -- the columns are the reactions whose
-    coefficient is positive (negative) under the FIRST segment's parameters at the model's INITIAL
-    state and time 0, the cells are the (normalised) fluxes of the segment, scaled per segment by the
-    coefficient under that segment's parameters at the initial state -- from every reachable state.
-    This coincides with the full statement when the coefficients of v are numbers or computed from
-    parameters only and keep their sign across segments (guard of the known finding). *)
-Theorem C10_producers_consumers_partial :
+(** producers / consumers.
+
+    FULL statement: "at every reported row the producers (consumers) of v are exactly the fluxes whose
+    coefficient for v is positive (negative) under that row's segment's parameters at that row's state
+    and time, scaled by it on request".  [spec_prodcons_rows] (ResSpec.v) is that statement in executable
+    form, computed from the REPORTED tables and the declared stoichiometries only: the columns are the
+    reactions whose coefficient N[v,r](row) has the sign in SOME reported row; the cell (row, r) is the
+    reported (normalised) flux -- times |N[v,r](row)| if scaled -- iff N[v,r](row) has the sign in THAT
+    row and NaN otherwise ([mask_cell]).
+
+    [C10_producers_consumers]: the REPAIRED bodies (fixes/C10-prodcons-per-segment.diff, facts [PKRows])
+    return exactly that, from every reachable state, with no guard on the coefficients.
+    [C10_producers_consumers_of_the_source]: what the bodies the SOURCE currently has return
+    ([rf_prod gen_res_facts], pinned to the switch ExpectedFacts.v by [C10_facts_pinned]): the full
+    rule after the repair, the snapshot's rule before.
+    [C10_producers_consumers_partial] / [_refuted]: the SNAPSHOT's bodies ([PKFirst]) return
+    [spec_prodcons_first] -- columns chosen once by the sign under the FIRST segment's parameters at the
+    model's INITIAL state and time 0, scaling by the coefficient under the segment's parameters at the
+    initial state -- which lists a flux as producer in a segment where it consumes: the regression
+    theorems for the old rule (they were stated about [gen_res_facts] while the tree carried that rule;
+    they now name the facts value explicitly so that they survive the repair). *)
+Theorem C10_producers_consumers :
+  forall fsem m r pn tbs st (neg : bool) v scaled n conc,
+    wf_res r pn -> evaluable fsem m pn -> canon_tables fsem m r = Ok tbs -> good_state pn tbs st ->
+    fst (run_op fsem (expected_facts PKRows) m r (if neg then OConsumers v scaled n conc else OProducers v scaled n conc) st)
+    = spec_prodcons_rows PKRows fsem m r pn neg v scaled n conc.
+Proof. exact (prodcons_is_spec PKRows). Qed.
+Print Assumptions C10_producers_consumers.
+
+Theorem C10_producers_consumers_of_the_source :
   forall fsem m r pn tbs st (neg : bool) v scaled n conc,
     wf_res r pn -> evaluable fsem m pn -> canon_tables fsem m r = Ok tbs -> good_state pn tbs st ->
     fst (run_op fsem gen_res_facts m r (if neg then OConsumers v scaled n conc else OProducers v scaled n conc) st)
-    = spec_prodcons fsem m r pn neg v scaled n conc.
-Proof. rewrite C10_facts_pinned. exact prodcons_is_spec. Qed.
+    = spec_prodcons (rf_prod gen_res_facts) fsem m r pn neg v scaled n conc.
+Proof. rewrite C10_facts_pinned. exact (prodcons_is_spec C10_expected_prod). Qed.
+Print Assumptions C10_producers_consumers_of_the_source.
+
+Theorem C10_producers_consumers_partial :
+  forall fsem m r pn tbs st (neg : bool) v scaled n conc,
+    wf_res r pn -> evaluable fsem m pn -> canon_tables fsem m r = Ok tbs -> good_state pn tbs st ->
+    fst (run_op fsem (expected_facts PKFirst) m r (if neg then OConsumers v scaled n conc else OProducers v scaled n conc) st)
+    = spec_prodcons_first PKFirst fsem m r pn neg v scaled n conc.
+Proof. exact (prodcons_is_spec PKFirst). Qed.
 Print Assumptions C10_producers_consumers_partial.
 
-(** witness: dx/dt = p*v with p = 1 in segment 0 and p = -1 in segment 1; v is listed as a producer
-    of x in segment 1 although its coefficient there is -1 *)
+(** witness: dx/dt = p*v with p = 1 in segment 0 and p = -1 in segment 1; the old rule lists v as a
+    producer of x in segment 1 although its coefficient there is -1 *)
 Definition wit_m : model :=
   mkModel [(1%N, 1)] [] [(70%N, mkRxn (mkCall 0%N [1%N]) [(1%N, CDyn 0%N [20%N])])] [] [70%N].
 Definition wit_r : simres := mkRes [[(0, [1]); (1, [2])]; [(2, [3])]] [[(20%N, 1)]; [(20%N, -1)]].
@@ -172,15 +279,42 @@ Definition wit_r : simres := mkRes [[(0, [1]); (1, [2])]; [(2, [3])]] [[(20%N, 1
 Theorem C10_producers_consumers_refuted :
   exists fs f1,
     wf_res wit_r [20%N] /\
-    fst (run_op fsemZ gen_res_facts wit_m wit_r (OProducers 1%N false NNone false) (mkSt [(20%N, -1)] [])) = VFrames fs
+    fst (run_op fsemZ (expected_facts PKFirst) wit_m wit_r (OProducers 1%N false NNone false) (mkSt [(20%N, -1)] [])) = VFrames fs
     /\ nth_error fs 1 = Some f1 /\ In 70%N (f_cols f1)
     /\ stoich_of_variable fsemZ wit_m [(20%N, -1)] 1%N = Ok [(70%N, -1)].
 Proof.
-  rewrite C10_facts_pinned. eexists. eexists.
+  eexists. eexists.
   split; [split; [repeat constructor; cbn; intuition discriminate|split; [reflexivity|split; [discriminate|repeat constructor]]]|].
   split; [vm_compute; reflexivity|]. split; [reflexivity|]. split; [left; reflexivity|vm_compute; reflexivity].
 Qed.
 Print Assumptions C10_producers_consumers_refuted.
+
+(** the same witness under the repaired bodies, and a sign change INSIDE a segment (coefficient 2 - x,
+    function 3 applied to (parameter 21 = 2, x)): the cells follow the sign row by row, the scale is the
+    row's coefficient *)
+Definition wit2_m : model :=
+  mkModel [(1%N, 0)] [] [(70%N, mkRxn (mkCall 0%N [20%N]) [(1%N, CDyn 3%N [21%N; 1%N])])] [] [70%N].
+Definition wit2_r : simres := mkRes [[(0, [0]); (1, [1]); (2, [3])]] [[(20%N, 1); (21%N, 2)]].
+
+Example C10_producers_consumers_nonvacuous :
+  run_ops fsemZ (expected_facts PKRows) wit_m wit_r
+          [OProducers 1%N false NNone false; OConsumers 1%N true NNone true] (mkSt [(20%N, -1)] [])
+  = [VMFrames [mkFrame [0; 1] [70%N] [[Some 1%Q]; [Some 2%Q]]; mkFrame [2] [70%N] [[None]]];
+     VMFrame (mkFrame [0; 1; 2] [70%N] [[None]; [None]; [Some 3%Q]])]
+  /\ run_ops fsemZ (expected_facts PKRows) wit2_m wit2_r
+          [OProducers 1%N true NNone true; OConsumers 1%N true NNone true; OProducers 1%N false (NScalar 2) true]
+          (mkSt [(20%N, 5); (21%N, 5)] [])
+  = [VMFrame (mkFrame [0; 1; 2] [70%N] [[Some 2%Q]; [Some 1%Q]; [None]]);
+     VMFrame (mkFrame [0; 1; 2] [70%N] [[None]; [None]; [Some 1%Q]]);
+     VMFrame (mkFrame [0; 1; 2] [70%N] [[Some (1 # 2)%Q]; [Some (1 # 2)%Q]; [None]])]
+  /\ wf_res wit2_r [20%N; 21%N] /\ evaluable fsemZ wit2_m [20%N; 21%N].
+Proof.
+  split; [vm_compute; reflexivity|]. split; [vm_compute; reflexivity|].
+  split; [split; [repeat constructor; cbn; intuition discriminate|split; [reflexivity|split; [discriminate|repeat constructor]]]|].
+  intros cur Hk. destruct cur as [|[k v] [|[k2 v2] [|? ?]]]; try discriminate. cbn in Hk. injection Hk as -> ->.
+  vm_compute. discriminate.
+Qed.
+Print Assumptions C10_producers_consumers_nonvacuous.
 
 (** non-vacuity: the hypotheses of the theorems hold for a concrete two-segment result whose
     parameter changes between the segments, and the read sequence user-edit; rhs; fluxes; rhs gives
